@@ -7,7 +7,7 @@ vars == <<pc, key, out>>
 
 G == IF Tier = "quick" THEN 3 ELSE 4
 Span == 8
-Families == {"s22", "s23", "kb", "o21", "o32"} \cup (IF Tier = "quick" THEN {} ELSE {"s33", "mat22", "o32kb"})
+Families == {"s22", "s23", "kb", "o21", "o32", "pin"} \cup (IF Tier = "quick" THEN {} ELSE {"s33", "mat22", "o32kb"})
 KPosSV(d) == {k \in KVariants(d) : k[1] \in {"none", "scalar", "vector"}}
 SystemsOf(f) ==
   CASE f = "s22" -> SysBoundsOf(A22)
@@ -15,6 +15,9 @@ SystemsOf(f) ==
     [] f = "s33" -> {Plain(A33, 4, Vec(3, 0), Vec(3, 4))}
     [] f = "mat22" -> SysMatrix(2, 2, 0..2)
     [] f = "kb" -> SysKBOf(A22, Vec(2, 0), Vec(2, 4), KPosSV(2))
+    (* a source pinned at a non-zero intensity (lb = ub), e.g. a constant background light *)
+    [] f = "pin" -> {Plain(A23, 4, <<2, 0, 0>>, <<2, 4, 4>>), Plain(A22, 4, <<0, 3>>, <<4, 3>>),
+                     Sys(A23, 4, <<0, 1, 0>>, <<4, 1, 4>>, "vector", Diag(<<1, 2>>), 1, "vector", <<1, 2>>)}
     [] f = "o21" -> SysBoundsOf(A21) \cup SysKBOf(A21, Vec(1, 1), Vec(1, 7), KPosSV(2))
     [] f = "o32" -> SysBoundsOf(A32)
     [] f = "o32kb" -> SysKBOf(A32, Vec(2, 1), <<6, 5>>, KPosSV(3))
@@ -36,5 +39,5 @@ Next == Level1 \/ Level2 \/ Level3
 Spec == Init /\ [][Next]_vars
 CertificatesConsistent == pc = "done" => \A r \in out.recs : r.ok
 BackCertified == pc = "done" => \A r \in out.back : BackOK(out.sys, r)
-NonVacuous == pc = "done" => (\E r \in out.recs : r.cls = "interior") /\ (\E r \in out.recs : r.ncert > 0)
+NonVacuous == (pc = "done" /\ out.fam # "pin") => (\E r \in out.recs : r.cls = "interior") /\ (\E r \in out.recs : r.ncert > 0)
 =============================================================================
